@@ -24,6 +24,7 @@ def symNames : Node → List String
   | .label n => [n]
   | .binary _ b => [b, b ++ "__size"]
   | .symbol n _ => [n]
+  | .argSymbol n _ => [n]
   | .symbolConst n _ => [n]
   | _ => []
 
@@ -134,6 +135,17 @@ theorem pcAfter_keeps (env : Env) (n : Node) (r r' : Resolver) (pc pc' : Address
     | ok v =>
       simp only [hv, Except.ok.injEq, Prod.mk.injEq] at h
       rw [← h.1]; exact ((addSymbol_keeps r name v hc).1).mono (fun _ hx => by cases hx) (fun _ hx => hx)
+  | argSymbol name e =>
+    unfold pcAfter at h
+    cases hp : r.cur.parent with
+    | none => simp [hp] at h
+    | some par =>
+      simp only [hp] at h
+      cases hv : evalP env { r with current := par } e with
+      | error er => simp [hv] at h
+      | ok v =>
+        simp only [hv, Except.ok.injEq, Prod.mk.injEq] at h
+        rw [← h.1]; exact ((addSymbol_keeps r name v hc).1).mono (fun _ hx => by cases hx) (fun _ hx => hx)
   | symbolConst name v =>
     simp only [pcAfter, Except.ok.injEq, Prod.mk.injEq] at h
     rw [← h.1]; exact ((addSymbol_keeps r name v hc).1).mono (fun _ hx => by cases hx) (fun _ hx => hx)
@@ -311,6 +323,7 @@ theorem emitNode_scopes (env : Env) (n : Node) (r r' : Resolver) (bs : List Nat)
     | error e => simp [hc, Except.map] at h
     | ok u => simp only [hc, Except.map, Except.ok.injEq, Prod.mk.injEq] at h; rw [← h.1]; exact ⟨rfl, rfl⟩
   | symbol name e => simp only [emitNode, Except.ok.injEq, Prod.mk.injEq] at h; rw [← h.1]; exact ⟨rfl, rfl⟩
+  | argSymbol name e => simp only [emitNode, Except.ok.injEq, Prod.mk.injEq] at h; rw [← h.1]; exact ⟨rfl, rfl⟩
   | symbolConst name v => simp only [emitNode, Except.ok.injEq, Prod.mk.injEq] at h; rw [← h.1]; exact ⟨rfl, rfl⟩
   | includeIps b => simp only [emitNode, Except.ok.injEq, Prod.mk.injEq] at h; rw [← h.1]; exact ⟨rfl, rfl⟩
   | table => simp only [emitNode, Except.ok.injEq, Prod.mk.injEq] at h; rw [← h.1]; exact ⟨rfl, rfl⟩
